@@ -1,6 +1,6 @@
 """C01 - responses are routed to the operation whose message ID they carry."""
 from facts import walk, callee_of, call_args, loc
-import hirq, anchors, absx
+import hirq, anchors, absx, sem, driver
 
 EXPLANATION = ("R1 path-sensitive extraction of the envelope decoder: on every success path the returned id is parse_uint of the "
                "universal INTEGER primitive child adjacent to the protocolOp child, controls come from the trailing [0] constructed "
@@ -105,35 +105,55 @@ def run(ctx):
         ctx.add('R3.payload-from-same-message', want, loc(n), okp,
                 'reply payload contains data not originating in the decoded message: %s' % [hirq.fmt_origin((b, ())) for b in bad])
 
-    # R4 classification table
-    tables = []
+    # R4 classification table, decided by evaluating the response arm once per protocolOp number (finite partition: every number
+    # the code compares with, and a representative of the rest); what is read off is what the arm *does* for that number - which
+    # SearchItem it forwards to the search's channel and whether it ends the search's routing - not how the table is written
+    msg = ('variant', ('variant', driver.ARM, 'Some', 0), 'Ok', 0)
+    def id_hook_for(n):
+        def hook(base, name, st):
+            if name == 'id' and sem.has(base, lambda x: x == driver.ARM) and sem.has(base, lambda x: x[0] == 'variant' and x[2] == 'Tag::StructureTag'):
+                return ('lit', n)
+            return None
+        return hook
+    consts = set()
     for n, c in walk(rbody):
-        if n['k'] == 'Match' and all(hirq.pat_lits(a['pat']) is not None or a['pat']['k'] in ('Wild', 'Bind') for a in n['arms']) \
-                and any(hirq.pat_lits(a['pat']) for a in n['arms']):
-            sc = hirq.peel_refs(n['scrut'])
-            if sc['k'] == 'Field' and sc['name'] == 'id' and 'StructureTag' in hirq.strip_refs(sc['e'].get('ty', '')):
-                tables.append(n)
-    ctx.add('R4.table', 'protocolOp classification', loc(rbody), len(tables) == 1, 'expected one match on the protocolOp tag number, found %d' % len(tables))
-    for t in tables:
-        okm, _ = from_message(L.origin(t['scrut']))
-        ctx.add('R4.scrutinee', 'protocolOp classification', loc(t), okm, 'the classified tag is not the decoded protocolOp')
-        got = {}
-        for a in t['arms']:
-            lits = hirq.pat_lits(a['pat'])
-            b = a['body']
-            res = arm_result(b)
-            if lits is None:
-                ctx.add('R4.default', 'default arm', loc(a['body']), res is None,
-                        'the default arm classifies unknown operations as %s' % (res,))
-                continue
-            for v in lits:
-                got[v] = res
-        for v in sorted(set(got) | set(RFC4511_SEARCH_RESP)):
-            exp = RFC4511_SEARCH_RESP.get(v)
-            g = got.get(v)
-            ok = g is not None and exp is not None and g[0] == exp and g[1] == (exp == 'SearchItem::Done')
-            ctx.add('R4.entry', 'op %d' % v, loc(t), ok,
-                    'protocolOp %d is classified as %s (ends search: %s); RFC 4511 says %s' % (v, g and g[0], g and g[1], exp))
+        if n['k'] in ('Lit',) and isinstance(n.get('v'), int) and not isinstance(n.get('v'), bool) and 0 <= n['v'] < 64:
+            consts.add(n['v'])
+        if n['k'] == 'Match':
+            for a in n['arms']:
+                ls = hirq.pat_lits(a['pat'])
+                for v in (ls or ()):
+                    if isinstance(v, int) and 0 <= v < 64:
+                        consts.add(v)
+    for cpath in {x.get('def') for x, _ in walk(rbody) if x.get('k') == 'Path' and str(x.get('defkind', '')).startswith('Const')} | \
+                 {a['pat']['e'].get('def') for n, c in walk(rbody) if n['k'] == 'Match' for a in n['arms'] if a['pat'].get('k') == 'PExpr' and str(a['pat']['e'].get('defkind', '')).startswith('Const')}:
+        v = hirq.const_eval(f, {'k': 'Path', 'res': 'def', 'defkind': 'Const', 'def': cpath}) if cpath else None
+        if isinstance(v, int) and 0 <= v < 64:
+            consts.add(v)
+    domain = sorted(consts | set(RFC4511_SEARCH_RESP) | {0, 1, 6, 30})
+    ctx.floor('R4', 'protocolOp numbers evaluated', len(domain), 6)
+    for v in domain:
+        outs, _I = driver.arm_paths(C, 'response', field_hook=id_hook_for(v))
+        items, ends, delivered = set(), set(), 0
+        for o in outs:
+            # paths on which the decoded ID belongs to an active search and the consumer is alive
+            snd = driver.sends(o, anchors.T_ITEM_SENDER)
+            for i, args, node in snd:
+                pl = args[1]
+                kind = pl[1][0][1] if pl[0] == 'tuple' and pl[1] and pl[1][0][0] == 'ctor' else absx.fmt(pl)[:40]
+                items.add(kind)
+                sid = node.get('id')
+                if sem.succeeded(o, lambda x: sem.has(x, lambda y: y[0] == 'call' and y[3] == sid)) or not sem.tested(o, lambda x: sem.has(x, lambda y: y[0] == 'call' and y[3] == sid)):
+                    delivered += 1
+                    ends.add(bool(driver.map_calls(C, o, 'search', ('remove',))))
+        exp = RFC4511_SEARCH_RESP.get(v)
+        if exp is None:
+            ctx.add('R4.entry', 'op %d' % v, loc(rbody), not items,
+                    'protocolOp %d under a search ID is forwarded as %s; RFC 4511 defines no search response with that number' % (v, sorted(items)))
+        else:
+            ok = items == {exp} and ends == {exp == 'SearchItem::Done'}
+            ctx.add('R4.entry', 'op %d' % v, loc(rbody), ok,
+                    'protocolOp %d is forwarded as %s and ends the search: %s; RFC 4511 says %s, ends the search: %s' % (v, sorted(items), sorted(ends), exp, exp == 'SearchItem::Done'))
 
     # R5 unmatched branch: statements of the response arm outside any successful lookup
     for n, c in walk(rbody):
